@@ -498,6 +498,10 @@ func (e *Engine) doCall(st *State, call *ssa.CallCommon, fnv Val, args []Val, de
 		}
 	}
 	fc := e.cs.Funcs[key]
+	if tfc := st.top().fc; tfc != nil && tfc.OrderOnly && fc != nil && !fc.Pure && !fc.NoReturn {
+		st.note("order-only examination: contract of " + key + " not used (call treated as unknown)")
+		fc = nil
+	}
 
 	// call-site assertions of the function under verification
 	pre := st.snapshot()
@@ -568,6 +572,9 @@ func (e *Engine) doCall(st *State, call *ssa.CallCommon, fnv Val, args []Val, de
 	default:
 		result = e.unknownCall(st, callee, key, name, fullArgs, resType, call)
 		haveResult = true
+	}
+	if haveResult && len(st.stackLocs) > 0 && len(st.frames) == 1 {
+		e.restoreStackLocs(st, pre.heap)
 	}
 	if haveResult {
 		// ghost updates requested by the function under verification
@@ -757,6 +764,9 @@ func (e *Engine) applyContract(st *State, fc *FuncContract, callee *ssa.Function
 	}
 	e.bindLets(post, fc)
 	for _, c := range fc.Ensures {
+		if c.Local {
+			continue
+		}
 		st.assume(e.evalBool(post, c))
 	}
 	for _, c := range fc.TrustedEnsures {
@@ -1235,7 +1245,7 @@ func elemSortOfArray(s Sort) Sort {
 // frameLocs evaluates the assigns clauses of fr's contract in the entry state.
 func (e *Engine) frameLocs(st *State, fr *Frame) ([]Loc, bool) {
 	fc := fr.fc
-	if fc == nil || !fc.HasAssigns || fc.AssignsEverything {
+	if fc == nil || !fc.HasAssigns || fc.AssignsEverything || fc.FrameTrusted {
 		return nil, false
 	}
 	env := e.envFor(st, fr, st.entry)
